@@ -357,7 +357,7 @@ func (b *V1) Read(c string, q *ReadArgs) *Resp {
 			lim = aws.Int64(int64(*q.Limit))
 		}
 		var esk map[string]*dynamodb.AttributeValue
-		if len(q.Esk) > 0 {
+		if q.Esk != nil { // an empty start key is passed as an empty, non-nil map
 			esk = ItemToV1(q.Esk)
 		}
 		if q.Kind == "query" {
